@@ -954,7 +954,27 @@ fn check_snippet(
     if nchars > n {
         // the documented unit is characters (search_fragments: "at most `max_num_chars`
         // characters (not bytes)")
-        let single = hl.len() == 1 && hl[0] == (0..frag.len());
+        // the whole fragment is ONE token of the field's analysis that alone is longer than the
+        // limit (it opened a new fragment and was kept); with overlapping tokenizers such as
+        // n-grams that token need not be a highlighted one
+        let single = hl.iter().any(|r| *r == (0..frag.len())) || {
+            let mut an = cx.analyzer.clone();
+            let mut st = an.token_stream(text);
+            let mut found = false;
+            while st.advance() {
+                let t = st.token();
+                if t.offset_from <= t.offset_to
+                    && t.offset_to <= text.len()
+                    && text.is_char_boundary(t.offset_from)
+                    && text.is_char_boundary(t.offset_to)
+                    && text[t.offset_from..t.offset_to] == frag
+                {
+                    found = true;
+                    break;
+                }
+            }
+            found
+        };
         if single {
             // a matching token that alone is longer than the limit becomes the whole fragment;
             // keep checking the rest: the other clauses are independent
